@@ -2,6 +2,13 @@
 import Basyx.Model.Tree
 namespace Basyx.Tree
 
+/-- decidable equality of results, for the `decide` examples in the Props files -/
+instance instDecEqExcept {ε α : Type} [DecidableEq ε] [DecidableEq α] : DecidableEq (Except ε α)
+  | .ok a, .ok b => if h : a = b then isTrue (by rw [h]) else isFalse (by intro h'; cases h'; exact h rfl)
+  | .error a, .error b => if h : a = b then isTrue (by rw [h]) else isFalse (by intro h'; cases h'; exact h rfl)
+  | .ok _, .error _ => isFalse (by intro h; cases h)
+  | .error _, .ok _ => isFalse (by intro h; cases h)
+
 /-! ### strings -/
 
 theorem dropWhile_of_head {p : Char → Bool} {c : Char} {l : List Char} (h : p c = false) :
